@@ -119,6 +119,9 @@ def get_image_quadrants(IM, reorient=True, symmetry_axis=None,
     if not isinstance(symmetry_axis, (list, tuple)):
         # if the user supplies an int, make it into a 1-element list:
         symmetry_axis = [symmetry_axis]
+    else:
+        # (tuples must compare equal to the lists used below)
+        symmetry_axis = list(symmetry_axis)
 
     if ((symmetry_axis == [None] and (use_quadrants[0]==False
                                    or use_quadrants[1]==False
